@@ -140,6 +140,8 @@ def check(run):
         valid.append(g.program(4)[0])
     valid += [t for _, _, _, t in namegen.cases(rng, 0, full=False)][:: 40 if q else 4]
     valid += DYN_GENERIC
+    import matrixgen
+    valid += matrixgen.sources(run, "c04", per_quick=12)
     n_valid = len(valid)
     progs += valid + [mutate(rng, rng.choice(valid)) for _ in range(200 if q else 4000)]
     progs += ["fn main() { " + "(" * d + "1" + ")" * d + " }" for d in (50, 100)]
